@@ -1821,6 +1821,17 @@ func leafRules(c *core.Ctx, pkg string, pair bool) {
 		for _, p := range nan.AllPaths() {
 			rv, isRet := retBool(p)
 			last := polarity(p, &ir.Term{Op: "bin", Aux: "==", Args: sorted2(ir.Const("1"), &ir.Term{Op: "len", Args: []*ir.Term{cur}})})
+			if last == 0 {
+				// `len(rest) <= 1` / `len(rest) < 2` / `len(rest) > 1`: on a live iterator the remaining slice is never
+				// empty (the constructor answers nil for an empty slice, Next never leaves less than one element), so
+				// "at most one" is "exactly one"
+				lenT := &ir.Term{Op: "len", Args: []*ir.Term{cur}}
+				if pl := polarity(p, &ir.Term{Op: "bin", Aux: "<", Args: []*ir.Term{ir.Const("1"), lenT}}); pl != 0 {
+					last = -pl
+				} else if pl := polarity(p, &ir.Term{Op: "bin", Aux: "<", Args: []*ir.Term{lenT, ir.Const("2")}}); pl != 0 {
+					last = pl
+				}
+			}
 			st := nonLocalStores(p)
 			switch {
 			case !isRet || last == 0:
